@@ -142,6 +142,23 @@ def ob_representation(mesh, refine, segmentwise=False, far=False):
     return held(txt)
 
 
+def ob_order_sweep(mesh, refine):
+    """bounded: "all regular quadrature orders >= 8": the representation error is <= 1e-6 relative at EVERY regular order 8..20 of the rule table
+    (each order maps to its own stored rule, so a single bad table entry or offset is visible at one order only)."""
+    errs = {o: representation_error(mesh, refine, o)[0] for o in range(8, 21)}
+    bad = {o: e for o, e in errs.items() if not e <= 1e-6}
+    if bad:
+        return violated("representation formula on %s (refined %d): relative error above 1e-6 at regular order(s) %s" % (mesh, refine, {o: "%.1e" % e for o, e in bad.items()}),
+                        witness={"mesh": mesh, "refine": refine, "orders": sorted(bad)}, signature="representation-order/%s" % mesh,
+                        replay={"callable": "checks.c02:replay_order_sweep", "kwargs": {"mesh": mesh, "refine": refine, "orders": sorted(bad)}, "confirmed": True})
+    return held("orders 8..20: worst %.1e (order %d)" % (max(errs.values()), max(errs, key=errs.get)))
+
+
+def replay_order_sweep(mesh, refine, orders):
+    errs = {o: representation_error(mesh, refine, o)[0] for o in orders}
+    return {"violates": any(not e <= 1e-6 for e in errs.values()), "errors": {str(o): e for o, e in errs.items()}}
+
+
 def replay_representation(mesh, refine, segmentwise=False, far=False):
     r = ob_representation(mesh, refine, segmentwise, far)
     return {"violates": r["status"] == "violated", "detail": r["detail"]}
@@ -178,6 +195,7 @@ def main():
         run.add("operators.potential.laplace.%s::descriptor" % name, "post", ob_factory, name)
     run.add("PotentialAssembler.evaluate::complex-split", "bounded", ob_complex_split)
     run.add("representation.octa(refined 2)", "bounded", ob_representation, "octa", 2)
+    run.add("representation.octa(refined 2): every regular order 8..20", "bounded", ob_order_sweep, "octa", 2)
     run.add("representation.octa(refined 2, translated to (4e5, 5.5e6, 120))", "bounded", ob_representation, "octa", 2, False, True)
     if thorough:
         run.add("representation.cube12(refined 3)", "bounded", ob_representation, "cube12", 3)
